@@ -27,6 +27,7 @@ package rac
 //@   requires wf(b) && math(n) <= math(vlen(b))
 //@   ensures wf(b) && math(vlen(b)) == math(old(vlen(b))) - math(n)
 //@   ensures forall(k, 0, vlen(b), view(b, k) == old(view(b, k + int(n))))
+//@   ensures[window] base(b.curr) == old(base(b.curr)) && off(b.curr) + len(b.curr) == old(off(b.curr) + len(b.curr)) && len(b.curr) <= old(len(b.curr))
 //@   modifies b.p, b.curr
 
 //@ func (*writeBuffer).advancePastLeadingZeroes
@@ -35,6 +36,7 @@ package rac
 //@   ensures wf(b) && math(n) <= math(old(vlen(b))) && math(vlen(b)) == math(old(vlen(b))) - math(n)
 //@   ensures[zeroes] forall(k, 0, math(n), old(view(b, k)) == 0)
 //@   ensures[rest] forall(k, 0, vlen(b), view(b, k) == old(view(b, k + int(n))))
+//@   ensures[window] base(b.curr) == old(base(b.curr)) && off(b.curr) + len(b.curr) == old(off(b.curr) + len(b.curr)) && len(b.curr) <= old(len(b.curr))
 //@   modifies b.p, b.curr
 //@   loop 1 invariant wf(b) && b.p <= i && i <= len(b.prev)
 //@   loop 1 invariant unchanged(b.p) && unchanged(b.curr) && unchanged(b.prev)
@@ -44,6 +46,109 @@ package rac
 //@   loop 2 invariant wf(b) && unchanged(b.curr) && unchanged(b.prev) && b.p == len(b.prev) && math(n) == math(len(b.prev)) - math(old(b.p))
 //@   loop 2 invariant forall(k, 0, (len(b.prev) - old(b.p)) + i, old(view(b, k)) == 0)
 //@   loop 2 decreases len(b.curr) - i
+
+// stripTrailingZeroes: a prefix of b; what was cut off is all zeroes; the result
+// does not end in a zero (so the result is the shortest such prefix).
+//@ func stripTrailingZeroes
+//@   prop C13
+//@   pure
+//@   ensures base(result) == base(b) && off(result) == off(b) && len(result) <= len(b)
+//@   ensures[zeroes] forall(k, len(result), len(b), b[k] == 0)
+//@   ensures[shortest] len(result) == 0 || b[len(result) - 1] != 0
+//@   loop 1 invariant 0 <= n && n <= len(b) && forall(k, n, len(b), b[k] == 0)
+//@   loop 1 decreases n
+
+// peek(n): the next min(n, length) bytes, as two windows onto the buffers (no copy).
+//@ func (*writeBuffer).peek
+//@   prop C13
+//@   pure
+//@   requires wf(b)
+//@   ensures[split] math(len(result0)) + math(len(result1)) == ite(math(n) <= math(vlen(b)), math(n), math(vlen(b)))
+//@   ensures[first] base(result0) == base(b.prev) && off(result0) == off(b.prev) + b.p && len(result0) <= len(b.prev) - b.p
+//@   ensures[second] len(result1) == 0 || (base(result1) == base(b.curr) && off(result1) == off(b.curr) && len(result1) <= len(b.curr) && len(result0) == len(b.prev) - b.p)
+
+// compact: the pending bytes move to the front of prev; the view is unchanged.
+//@ func (*writeBuffer).compact
+//@   prop C13
+//@   requires wf(b) && base(b.curr) != base(b.prev)
+//@   ensures wf(b) && b.p == 0 && len(b.curr) == 0 && vlen(b) == old(vlen(b))
+//@   ensures[view] forall(k, 0, vlen(b), view(b, k) == old(view(b, k)))
+//@   modifies b.prev, b.curr, b.p, mem(b.prev)
+
+// calcCLength: the number of 1024-byte units, rounded up, if that fits the
+// 8-bit CLength field; 0 ("use CPtrMax") otherwise.
+//@ func calcCLength
+//@   prop C13
+//@   pure
+//@   ensures implies(primarySize <= 0, result == 1)
+//@   ensures implies(0 < primarySize && primarySize <= 255*1024, 1 <= result && result <= 255 && 1024*(int(result) - 1) < primarySize && primarySize <= 1024*int(result))
+//@   ensures implies(primarySize > 255*1024, result == 0)
+
+// resourceToTag: the index of r among the node's resources, in the top byte, or 0xFF.
+//@ func resourceToTag
+//@   prop C13
+//@   pure
+//@   requires len(resources) <= 255
+//@   ensures result == 0xFF00000000000000 || exists(i, 0, len(resources), result == uint64(i) * 0x100000000000000 && resources[i] == int(r) && r != 0)
+//@   loop 1 invariant -1 <= rangeindex && rangeindex < len(resources)
+//@   loop 1 decreases len(resources) - rangeindex
+
+// ---- writer.go: the Writer above the writeBuffer ----
+
+// The CodecWriter interface (assumed; these are obligations on codec packages).
+//@ func iface rac.CodecWriter.Compress
+//@   trusted_contract rac.CodecWriter.Compress: reads p and q, touches nothing the Writer can see; results arbitrary (a resource index outside [0, len(resourcesData)) means "no resource", per the interface's doc comment)
+//@   pure
+
+//@ func iface rac.CodecWriter.Cut
+//@   trusted_contract rac.CodecWriter.Cut: per the interface's doc comment encodedLen <= maxEncodedLen; also assumed: 0 <= encodedLen <= len(encoded) and decodedLen >= 0; may modify encoded's bytes
+//@   ensures implies(retErr == nil, 0 <= encodedLen && encodedLen <= maxEncodedLen && encodedLen <= len(encoded) && decodedLen >= 0)
+//@   modifies mem(encoded)
+
+//@ func iface rac.CodecWriter.WrapResource
+//@   trusted_contract rac.CodecWriter.WrapResource: touches nothing the Writer can see; result arbitrary
+//@   pure
+
+// wOK: the Writer's state between calls, once initialize has succeeded.
+//@ spec wOK(w *Writer) bool = w != nil && wf(w.uncompressed) && w.CodecWriter != nil && len(w.resourcesIDs) == len(w.ResourcesData) && base(w.uncompressed.curr) != base(w.uncompressed.prev)
+
+// useResource: "It is valid to pass an i outside the range [0, len(w.resourcesIDs)),
+// in which case the call is a no-op" (doc comment) - so no index may be out of range.
+//@ func (*Writer).useResource
+//@   prop C13
+//@   requires wOK(w)
+//@   ensures wOK(w) && unchanged(w.uncompressed.p) && unchanged(w.uncompressed.prev) && unchanged(w.uncompressed.curr) && unchanged(mem(w.uncompressed.prev)) && unchanged(mem(w.uncompressed.curr))
+//@   ensures[sticky] implies(result1 != nil, w.err != nil)
+//@   modifies w.err, w.chunkWriter, mem(w.resourcesIDs)
+
+// writeDChunks: each chunk covers exactly the next dSize pending bytes: what is
+// handed to Compress is those bytes minus trailing zeroes (zeroes inside the
+// chunk are kept), and exactly dSize bytes are then consumed.
+//@ func (*Writer).writeDChunks
+//@   prop C13
+//@   requires wOK(w) && w.dChunkSize > 0
+//@   ensures wOK(w)
+//@   modifies w.err, w.chunkWriter, mem(w.resourcesIDs), w.uncompressed.p, w.uncompressed.curr
+//@   loop 1 invariant wOK(w) && unchanged(w.dChunkSize) && unchanged(w.uncompressed.prev) && unchanged(mem(w.uncompressed.prev)) && unchanged(mem(w.uncompressed.curr))
+//@   loop 1 decreases vlen(w.uncompressed)
+//@   assert@call Compress#1 [window] base(arg_p) == base(w.uncompressed.prev) && off(arg_p) == off(w.uncompressed.prev) + w.uncompressed.p && len(arg_p) <= len(w.uncompressed.prev) - w.uncompressed.p
+//@   assert@call Compress#1 [interior] len(arg_q) == 0 || (base(arg_q) == base(w.uncompressed.curr) && off(arg_q) == off(w.uncompressed.curr) && len(arg_q) <= len(w.uncompressed.curr) && len(arg_p) == len(w.uncompressed.prev) - w.uncompressed.p)
+//@   assert@call Compress#1 [zeroes] math(dSize) <= math(vlen(w.uncompressed)) && forall(k, len(arg_p) + len(arg_q), int(dSize), view(w.uncompressed, k) == 0)
+//@   assert@call AddChunk#1 [size] arg_dRangeSize == dSize && dSize > 0 && math(dSize) == ite(math(w.dChunkSize) <= math(vlen(w.uncompressed)), math(w.dChunkSize), math(vlen(w.uncompressed)))
+
+// ---- chunk_writer.go ----
+//@ func (*ChunkWriter).AddResource
+//@   prop C13
+//@   trusted summary of ChunkWriter.AddResource (writes through io.Writer / TempFile): assumed, not yet verified
+//@   requires w != nil
+//@   ensures implies(result1 != nil, w.err != nil || true)
+//@   modifies *w
+
+//@ func (*ChunkWriter).AddChunk
+//@   prop C13
+//@   trusted summary of ChunkWriter.AddChunk (writes through io.Writer / TempFile): assumed, not yet verified
+//@   requires w != nil
+//@   modifies *w
 
 // ---- chunk_reader.go: node layout (RAC spec, "Branch Nodes") ----
 
